@@ -229,6 +229,9 @@ def realign_gaf(gaf, graph, fasta, output, cores=1):
 
             for p in processes:
                 p.join()
+            if not all_exited(processes):
+                logger.error("One of the processes had a none-zero exit code")
+                sys.exit(1)
             queue_len = len(p_queue.queue)
             for _ in range(queue_len):
                 output.write(p_queue.get().seq)
@@ -274,6 +277,9 @@ def realign_gaf(gaf, graph, fasta, output, cores=1):
                 # output.write(out_string_obj)
         for p in processes:
             p.join()
+        if not all_exited(processes):
+            logger.error("One of the processes had a none-zero exit code")
+            sys.exit(1)
         queue_len = len(p_queue.queue)
         for _ in range(queue_len):
             output.write(p_queue.get().seq)
